@@ -15,8 +15,12 @@
   (model-side only); (7) `make_scaffold_name`.
 
   What depends on the generated text: the ORDER of the tuple components of the loop state of `make_scaffold_name`
-  (`absScan`) and of the `(haplotype, self)` pair after `haplotype_from_first_row_name`; the hypothesis names of the generated
-  locals do not matter.  Everything else goes through unfolding by name, case analysis on model-level quantities and `simp`.
+  (`absScan`) and of the `(haplotype, self)` pair after `haplotype_from_first_row_name`, and that the tail after the Primary block
+  is emitted twice (macros `namer_tail` / `namer_primary` are run on each copy); the names of the generated locals do not matter.
+  Everything else goes through unfolding by name, case analysis on model-level quantities and `simp`.  Truthiness tests on
+  `str`-or-None values are handled by splitting the VALUE into `none` / `some []` / `some (c :: cs)`, so the proofs do not care
+  whether the translator writes `PyRt.strTruthy x` or the narrowed `match x with | none => … | some v => if !v.isEmpty …`
+  (the file checks unchanged against both generations of `Gen/Imp.lean` that existed while it was written).
 -/
 import AgpTpf.Gen.Imp
 import AgpTpf.Proofs.C10
